@@ -139,8 +139,10 @@ class CubicBezier(ArcLengthMixin, Segment):
         b = -3 * pa + 3 * pb
         c = pa
         d = -pa + 3 * pb - 3 * pc + pd
-        if d == 0:
-            return []
+        if abs(d) <= 1e-9 * max(abs(a), abs(b), abs(c)):
+            # The cubic term vanishes (e.g. a degree-elevated quadratic or a
+            # straight line): solve what is left instead of dividing by d.
+            return quadraticRoots(a, b, c)
         a = a / d
         b = b / d
         c = c / d
